@@ -223,6 +223,12 @@ def check(an: Analysis) -> None:
             pass
         elif isinstance(p, ast.Starred):
             pass
+        elif isinstance(p, (ast.UnaryOp, ast.BoolOp, ast.If, ast.While, ast.IfExp, ast.Assert)) or (isinstance(p, ast.Call) and isinstance(p.func, ast.Name) and p.func.id in ("len", "bool")):
+            pass  # emptiness / size tests read nothing but the length
+        elif isinstance(p, ast.Call) and isinstance(p.func, ast.Name) and p.func.id in ("tuple", "list", "iter", "enumerate") and len(p.args) == 1 and p.args[0] is n:
+            pass  # order-preserving snapshot / iteration
+        elif isinstance(p, ast.Call) and isinstance(p.func, ast.Name) and p.func.id in ("map", "zip") and n in p.args[(1 if p.func.id == "map" else 0):]:
+            pass  # map(f, self._nested): iterated in order
         else:
             ob.fail(fi, p, "nested scopes are not iterated directly in creation order (re-ordered, sliced, sorted or written)")
     if len(uses) < 4:
@@ -281,7 +287,10 @@ def check(an: Analysis) -> None:
         ob.inst(mf, lp)
         if isinstance(it, ast.Call) and an.callee(mf, it) == "itertools.chain.from_iterable" and it.args:
             gen = unwrap(it.args[0])
-            if isinstance(gen, (ast.GeneratorExp, ast.ListComp)) and len(gen.generators) == 1 and not gen.generators[0].ifs:
+            mc_ = gen.args[0] if isinstance(gen, ast.Call) and is_name(gen.func, "map") and len(gen.args) == 2 else None
+            if isinstance(mc_, ast.Call) and (dotted(mc_.func) or "").endswith("methodcaller") and mc_.args and isinstance(mc_.args[0], ast.Constant) and mc_.args[0].value == "metrics" and any(k.arg == "merge" and is_name(k.value, "merge") for k in mc_.keywords) and dotted(gen.args[1]) == "self._nested":
+                outer_ok = True  # map(methodcaller("metrics", merge=merge), self._nested): nested.metrics(merge=merge) for every nested scope in order
+            elif isinstance(gen, (ast.GeneratorExp, ast.ListComp)) and len(gen.generators) == 1 and not gen.generators[0].ifs:
                 el = unwrap(gen.elt)
                 if not (isinstance(el, ast.Call) and isinstance(el.func, ast.Attribute) and el.func.attr == "metrics" and any(k.arg == "merge" and is_name(k.value, "merge") for k in el.keywords)):
                     ob.fail(mf, lp, "nested scopes' values are not obtained through nested.metrics(merge=merge) (depth-first fold)")
